@@ -77,7 +77,7 @@ def run(ctx):
         ctx, sub="auth",
         mc=[("MC_Auth", "MC_Auth.cfg" if q else "MC_Auth_deep.cfg", dict(workers=4 if q else 8))],
         gen=[("AuthGen", "Gen_Auth_jwt.cfg" if q else "Gen_Auth_jwt_deep.cfg", dict(workers=1))],
-        trace=TRACE, random_n=3000 if q else 200000, post_gen=_post(ctx), nontrivial=_nontrivial,
+        trace=TRACE, random_n=15000 if q else 200000, post_gen=_post(ctx), nontrivial=_nontrivial,
         dedupe_key=lambda s: json.dumps(s, sort_keys=True), jobs=12, timeout_ms=30000)
     reqs = sum(o["obs"].get("n", 0) for o in obs)
     ctx.evaluations = reqs + ctx.extra.get("hmac_crosscheck_vectors", 0)
